@@ -66,6 +66,108 @@ def unwrap_cbor(t, n):
     return t
 
 
+
+def _guarded(effects, guards=()):
+    """(primitive effect, conditions it is performed under) in program order."""
+    for e in effects:
+        if isinstance(e, App) and e.op == "eff:if":
+            yield from _guarded(e.args[1].args, guards + (e.args[0],))
+            yield from _guarded(e.args[2].args, guards + (App("not", (e.args[0],)),))
+        elif isinstance(e, App) and e.op in ("eff:loop", "eff:partial", "eff:alts"):
+            continue
+        else:
+            yield e, guards
+
+
+def key_wrap_codes(ctx, ev0):
+    """C06-D4b: decision table of the value stored in self.cose_kw_alg for each member of the key-wrap enumeration, taken from every
+    method of the encryptor that stores the attribute (a dedicated converter or the entry points themselves)."""
+    from sa.teval import teval as _teval, Unknown as _Unknown, Raised as _Raised
+    R, repo = ctx.report, ctx.repo
+    selfp = P("self")
+
+    def stores(o):
+        return [(e.args[2], g) for e, g in _guarded(o.effects) if isinstance(e, App) and e.op == "eff:setattr" and e.args[0] == selfp
+                and e.args[1] == Const("cose_kw_alg")]
+
+    setters = []
+    for q, fi in sorted(repo.mod(ENC).functions.items()):
+        if not q.startswith("Encryptor."):
+            continue
+        try:
+            outs = [o for o in ev0.outcomes(fi) if o.kind == "return"]
+        except AnalysisError:
+            continue
+        if any(stores(o) for o in outs):
+            setters.append((fi, outs))
+    if not setters:
+        raise AnalysisError(f"{ENC}: no method of Encryptor stores self.cose_kw_alg (key-wrap selection not found)")
+    R.rule("C06-D4b key-wrap codes", 2 * len(setters), "DIRECT -> -6, A256KW -> -5")
+    for kwc, kouts in setters:
+        members = {}
+        terms = [c for o in kouts for c in o.conds] + [t for o in kouts for v, g in stores(o) for t in (v,) + tuple(g)]
+        for t in terms:
+            for s_ in subterms(t):
+                if isinstance(s_, App) and s_.op == "enum" and isinstance(s_.args[0], Ref) and s_.args[0].obj.name == "SuitKWAlgorithms":
+                    members[s_.args[1].v] = s_
+        cls_kw = next((m.args[0].obj for m in members.values()), None)
+        if cls_kw is not None:
+            for nm, _v in ev0.enum_members(cls_kw):
+                members.setdefault(nm, ev0.enum_member(cls_kw, nm))
+        if not members:
+            raise AnalysisError(f"{ctx.fq(kwc)}: stores self.cose_kw_alg without consulting the key-wrap enumeration")
+        # the parameter carrying the key-wrap algorithm: the one compared with members of the enumeration
+        params = set()
+        for t in terms:
+            for c in subterms(t):
+                if isinstance(c, App) and c.op in ("==", "!=", "is", "is not", "in", "not in") and any(s_ in members.values() for s_ in subterms(c)):
+                    params |= {s_ for s_ in subterms(c) if isinstance(s_, Sym) and s_.name.startswith("param:") and s_ != selfp}
+        if len(params) != 1:
+            raise AnalysisError(f"{ctx.fq(kwc)}: key-wrap selection not recognised (selected by {sorted(map(repr, params))})")
+        kwp = next(iter(params))
+
+        def holds(c, env):
+            """True / False / None (not selected by the key-wrap algorithm: may hold)."""
+            try:
+                return bool(_teval(c, env))
+            except (_Unknown, _Raised) as ex:
+                if any(s_ == kwp for s_ in subterms(c)):
+                    raise AnalysisError(f"{ctx.fq(kwc)}: key-wrap selection not recognised ({c!r}: {ex})")
+                return None
+
+        table = {}
+        for name_ in members:
+            env = {m2: ("member", n2) for n2, m2 in members.items()}
+            env[kwp.name] = ("member", name_)
+            vals = set()
+            for o in kouts:
+                if any(holds(c, env) is False for c in o.conds):
+                    continue
+                last = {None}  # values the attribute may hold at the exit (None: not stored on this path)
+                for v, g in stores(o):
+                    hs = [holds(c, env) for c in g]
+                    if any(h is False for h in hs):
+                        continue
+                    try:
+                        val = _teval(v, env)
+                    except (_Unknown, _Raised) as ex:
+                        raise AnalysisError(f"{ctx.fq(kwc)}: key-wrap code not a constant ({v!r}: {ex})")
+                    last = {val} if all(h is True for h in hs) else last | {val}
+                vals |= last
+            table[name_] = vals
+        if any(None in vs for vs in table.values()):
+            mod_ = repo.mod(ENC)
+            other = [n for n in ast.walk(mod_.tree) if isinstance(n, ast.Attribute) and n.attr == "cose_kw_alg" and isinstance(n.ctx, ast.Store)
+                     and not any(n in set(ast.walk(f.node)) for f, _ in setters)] + \
+                    [n for n in ast.walk(mod_.tree) if isinstance(n, ast.Name) and n.id == "cose_kw_alg" and isinstance(n.ctx, ast.Store)]
+            if other:
+                raise AnalysisError(f"{ctx.fq(kwc)}: self.cose_kw_alg is not stored on every path and has a default elsewhere (line "
+                                    f"{other[0].lineno}): not a form the rule can follow")
+        for nm, code in (("A256KW", -5), ("DIRECT", -6)):
+            R.check("C06-D4b key-wrap codes", table.get(nm) == {code}, f"{nm} -> {code}", mod=kwc.module, node=kwc.node,
+                    function=ctx.fq(kwc), expected=str(code), found=repr(sorted(table.get(nm, ()), key=repr)),
+                    key_extra=kwc.qualname if kwc.qualname != "Encryptor._kw_alg_convert" else "")
+
 def run(ctx):
     R = ctx.report
     repo = ctx.repo
@@ -138,40 +240,7 @@ def run(ctx):
         R.check("C06-D4 COSE_Encrypt shape", rec[2] == P("encrypted_cek"), "recipient ciphertext = encrypted CEK (nil for direct)",
                 mod=fi_info.module, node=fi_info.node, function=fq_info, expected="encrypted_cek", found=repr(rec[2]))
         # key-wrap algorithm codes
-        kwc = repo.func(ENC, "Encryptor._kw_alg_convert")
-        kouts = [o for o in ev0.outcomes(kwc) if o.kind == "return"]
-        from sa.teval import teval as _teval, Unknown as _Unknown
-        # decision table: the value stored for each member of the key-wrap enumeration (whatever the shape of the selection code)
-        members = {}
-        for o in kouts:
-            for t in list(o.conds) + list(o.heap.values()):
-                for s_ in subterms(t):
-                    if isinstance(s_, App) and s_.op == "enum" and isinstance(s_.args[0], Ref) and s_.args[0].obj.name == "SuitKWAlgorithms":
-                        members[s_.args[1].v] = s_
-        cls_kw = next((m.args[0].obj for m in members.values()), None)
-        if cls_kw is not None:
-            for nm, _v in ev0.enum_members(cls_kw):
-                members.setdefault(nm, ev0.enum_member(cls_kw, nm))
-        table = {}
-        selfp = P("self")
-        for name_, mt in members.items():
-            env = {m2: ("member", n2) for n2, m2 in members.items()}
-            env["param:kw_alg"] = ("member", name_)
-            for o in kouts:
-                try:
-                    if not all(_teval(c, env) for c in o.conds):
-                        continue
-                    stored = o.heap.get((selfp, "cose_kw_alg"))
-                    table[name_] = _teval(stored, env) if stored is not None else None
-                except _Unknown as ex:
-                    table[name_] = f"not decided ({ex})"
-        if not members or len(table) != len(members):
-            raise AnalysisError(f"{ctx.fq(kwc)}: key-wrap selection not recognised ({sorted(members)} / {table})")
-        R.rule("C06-D4b key-wrap codes", 2, "DIRECT -> -6, A256KW -> -5")
-        R.check("C06-D4b key-wrap codes", table.get("A256KW") == -5, "A256KW -> -5", mod=kwc.module, node=kwc.node,
-                function=ctx.fq(kwc), expected="-5", found=repr(table.get("A256KW")))
-        R.check("C06-D4b key-wrap codes", table.get("DIRECT") == -6, "DIRECT -> -6", mod=kwc.module, node=kwc.node, function=ctx.fq(kwc),
-                expected="-6", found=repr(table.get("DIRECT")))
+        key_wrap_codes(ctx, ev0)
 
     # ---------------------------------------------------------------- D1: AAD literal
     R.rule("C06-D1 AAD = Enc_structure of the emitted header", 1, "literal == cbor(['Encrypt', protected bstr, h''])")
